@@ -19,3 +19,15 @@ func TestF11FeedDataWithEOF(t *testing.T) {
 		t.Fatalf("records %q, want %q", got, want)
 	}
 }
+
+// F13: an empty record in the data that Read returns together with io.EOF was dropped
+// ("a\n\nb\n" gave "a", "b" instead of "a", "", "b").
+func TestF13FeedEmptyRecordWithEOF(t *testing.T) {
+	var got []string
+	r := NewReader(func(b []byte) bool { got = append(got, string(b)); return true }, util.NewEventBox(), util.NewExecutor(""), false, false)
+	r.feed(iotest.DataErrReader(strings.NewReader("a\n\nb\n")))
+	want := []string{"a", "", "b"}
+	if strings.Join(got, "|") != strings.Join(want, "|") || len(got) != len(want) {
+		t.Fatalf("records %q, want %q", got, want)
+	}
+}
